@@ -46,7 +46,8 @@ def abstract(cd, lang):
                 t0 = (p["const"].strip() + " " + t[0]).lstrip()
                 dflt = "" if not p["defaultvalue"].strip() else lang.GetDefaultFormatFromMultiplicityAndModifier(
                     c, p["modifier"].strip(), p["multiplicity"].strip(), p["defaultvalue"])
-                ps.append([t0, t[1], dflt])
+                ext = lang.GetTypeAndNameFromMultiplicityAndModifier(c, p["type"].strip(), p["modifier"].strip(), p["multiplicity"].strip(), "")[1]
+                ps.append([t0, t[1], dflt, ext])
             ret = lang.GetTypeAndNameFromMultiplicityAndModifier(c, op.RETURN_TYPE, op.RETURN_TYPE_MODIFIER, "", "")[0]
             ops.append([op.NAME, op.VISIBILITY, ret, ps, bb(op.VIRTUAL), bb(op.IS_STATIC), bb(op.IS_CONST)])
         classes.append([cid, c.NAME, c.NAMESPACE, bb(c.IS_ENUM), bb(c.IS_STRUCT), bb(c.AUTOGEN), bb(c.PURE_VIRTUAL_INTERFACE), ops])
@@ -102,7 +103,7 @@ def mutate(rng, cd, n):
         cid = rng.choice(cids)
         c = cd.classes[cid]
         k = rng.choice(["rename-class", "remove-class", "retype-class", "rename-package", "rename-op", "remove-op", "retype-op",
-                        "param", "attribute", "relationship", "visibility", "copy-op"])
+                        "param", "attribute", "relationship", "visibility", "copy-op", "second-path"])
         if k == "rename-class":
             new = rng.choice(["C" + kj.ident(rng, "X"), "C" + kj.ident(rng, "X"), rng.choice(list(cd.classes.values())).NAME])
             old = c.NAME
@@ -170,6 +171,18 @@ def mutate(rng, cd, n):
                 k += ":flip-realisation"
         elif k == "visibility" and c.OPERATIONS:
             rng.choice(c.OPERATIONS).VISIBILITY = rng.choice(["public", "protected", "private", "package"])
+        elif k == "second-path":
+            # the class additionally realises a parent of an interface it already realises (two paths to the same operations)
+            for i in list(cd.inheritence.values()):
+                if i.CLASS_TO_ID == cid and i.CLASS_FROM_ID in cd.classes:
+                    ups = [j for j in cd.inheritence.values() if j.CLASS_TO_ID == i.CLASS_FROM_ID and j.CLASS_FROM_ID in cd.classes
+                           and cd.classes[j.CLASS_FROM_ID].PURE_VIRTUAL_INTERFACE]
+                    if ups:
+                        extra = copy.copy(i)
+                        extra.CLASS_FROM_ID, extra.IS_REALIZATION = ups[0].CLASS_FROM_ID, True
+                        extra.PostProjectParseFix(cd)
+                        cd.inheritence["second-path-%d" % len(cd.inheritence)] = extra
+                        break
         elif k == "copy-op":
             # declare in a class an operation of an interface it realises (what the shipped ProtocolStack diagram does)
             for i in cd.inheritence.values():
